@@ -306,7 +306,11 @@ func (c *cursorAcker) ack(offset int64) {
 	if uint32(e.Count()) == q.requiredAcks {
 		delete(q.tracker, offset)
 
-		// Advance the commit offset
-		q.notifyCommitOffsetAdvanced(offset)
+		// Advance the commit offset. It must never move backwards: an entry below the
+		// commit offset can still be tracked when its first ack overtook the tracking
+		// of the entry and was dropped, and a later ack of another follower completes it
+		if offset > q.commitOffset.Load() {
+			q.notifyCommitOffsetAdvanced(offset)
+		}
 	}
 }
